@@ -112,11 +112,17 @@ def handle (j : Json) : Except String Json := do
     let lay ← jlayout (← J.fld j "lay")
     let ok := docOK2 d && layoutOK ioText d lay
     let ok2 := docOK2 d && layoutOK2 ioText d lay
+    -- second extension round: the widened domain (binary read) and the text-mode domain
+    let okw := docOK2 d && layoutOKW ioText d lay
+    let oku := docOK2 d && layoutOKU ioText d lay
     match renders ioText d lay with
-    | none => pure (Json.mkObj [("text", Json.null), ("ok", Json.bool ok), ("ok2", Json.bool ok2)])
+    | none => pure (Json.mkObj [("text", Json.null), ("ok", Json.bool ok), ("ok2", Json.bool ok2),
+        ("okw", Json.bool okw), ("oku", Json.bool oku)])
     | some t =>
       let tn := univNl t
       pure (Json.mkObj [("text", sj t), ("ok", Json.bool ok), ("ok2", Json.bool ok2),
+        ("okw", Json.bool okw), ("oku", Json.bool oku),
+        ("univLay", optJ sj (renders ioText d lay.univ)),
         ("logical", optJ sj (rendersLogical ioText d lay)),
         ("canon", parsedJ (canon d)),
         ("bin", parseAll t),
